@@ -1,10 +1,75 @@
 import DFV.JsonField
+import DFV.Model.C11
 namespace DFV.Drv
-open Lean DFV
+open Lean DFV DFV.C11
 
-/-- driver ops of property C11 (stub: no ops yet) -/
+/-- field with Gaussian-rational data: `{"mesh":…, "nvdim":k, "re":[[c0,…] per cell, C order],
+"im":[[…]]|null, "vdims":[..]|null, "vmap":[[vdim,dim],..], "unit":str|null}` -/
+def cfOfJson (j : Json) : R (CF Poly) := do
+  let mesh ← meshOfJson (← fld j "mesh")
+  let nvdim ← natOfJson (← fld j "nvdim")
+  let re ← listOf (listOf ratOfJson) (← fld j "re")
+  let im ← match fldOpt j "im" with
+    | some v => listOf (listOf ratOfJson) v
+    | none => pure (re.map fun row => row.map fun _ => (0 : Rat))
+  if re.length ≠ natProd mesh.n then throw s!"field data length {re.length} ≠ {natProd mesh.n}"
+  if im.length ≠ re.length then throw "im length"
+  let cells := List.zipWith (fun r i => List.zipWith Poly.const r i) re im
+  let vdims ← optStrsOfJson j "vdims"
+  let vmap ← pairsOfJson j "vmap"
+  let unit ← optStrOfJson j "unit"
+  pure { mesh, nvdim, data := NDA.ofList mesh.n cells [], vdims, vmap, unit }
+
+/-- collect like monomials (exponents reduced mod `ns`): list of `[flat exponent index (C
+order), re, im]` with a non-zero coefficient -/
+def denseJ (ns : List Nat) (p : Poly) : Json :=
+  let acc := p.terms.foldl (init := Array.replicate (natProd ns) ((0 : Rat), (0 : Rat))) fun acc t =>
+    let k := flatC ns (tab ns.length fun a => t.1.getD a 0 % ns.getD a 1)
+    acc.modify k fun c => (c.1 + t.2.1, c.2 + t.2.2)
+  let out := (List.range acc.size).filterMap fun k =>
+    let c := acc.getD k (0, 0)
+    if c.1 = 0 ∧ c.2 = 0 then none
+    else some (Json.arr #[Json.num (JsonNumber.fromNat k), ratToJson c.1, ratToJson c.2])
+  .arr out.toArray
+
+def cfToJson (ns : List Nat) (f : CF Poly) : Json :=
+  Json.mkObj [("mesh", meshToJson f.mesh), ("nvdim", .num (JsonNumber.fromNat f.nvdim)),
+    ("shape", natsJ f.data.shape), ("ns", natsJ ns),
+    ("coef", listJ (fun (cell : List Poly) => listJ (denseJ ns) cell) f.data.toList),
+    ("vdims", optStrsJ f.vdims), ("vmap", pairsJ f.vmap), ("unit", optStrJ f.unit)]
+
+def optShape (j : Json) : R (Option (List Nat)) :=
+  match fldOpt j "shape" with
+  | none => pure none
+  | some v => some <$> listOf natOfJson v
+
+/-- ops of property C11 -/
 def c11 (op : String) (j : Json) : Option (R Json) :=
   match op with
+  | "freqs" => some do
+      let n ← natOfJson (← fld j "n"); let d ← ratOfJson (← fld j "d")
+      pure (Json.mkObj [("fftfreq", ratsJ (fftfreq n d)), ("rfftfreq", ratsJ (rfftfreq n d)),
+        ("shifted", ratsJ (fftshiftL (fftfreq n d)))])
+  | "mesh_fftn" => some do
+      let m ← meshOfJson (← fld j "mesh"); let rfft ← boolOfJson (← fld j "rfft")
+      pure (resJ meshToJson (meshFftn m rfft))
+  | "mesh_ifftn" => some do
+      let m ← meshOfJson (← fld j "mesh"); let rfft ← boolOfJson (← fld j "rfft")
+      pure (resJ meshToJson (meshIfftn m rfft (← optShape j)))
+  | "field" => some do
+      let f ← cfOfJson (← fld j "field")
+      let kind ← strOfJson (← fld j "kind")
+      match kind with
+      | "fftn" => pure (resJ (cfToJson f.data.shape) (fftn (Poly.roots f.data.shape) f))
+      | "rfftn" => pure (resJ (cfToJson f.data.shape) (rfftn (Poly.roots f.data.shape) f))
+      | "ifftn" => pure (resJ (cfToJson f.data.shape) (ifftn (Poly.roots f.data.shape) f))
+      | "irfftn" =>
+        let shape ← optShape j
+        -- the moduli are the output counts (known once the mesh-level call succeeded)
+        match meshIfftn f.mesh true shape with
+        | .error e => pure (errJ e)
+        | .ok k => pure (resJ (cfToJson k.n) (irfftn (Poly.conj k.n) (Poly.roots k.n) f shape))
+      | _ => throw s!"unknown kind {kind}"
   | _ => none
 
 end DFV.Drv
